@@ -308,6 +308,18 @@ def expected(p, req):
         if kind == "list-variable":
             log = nest(I("SCALAR"), "input") + log
         return [{"os": [{"h": out}, {"h": out}]}], [nest(I("SCHEMA"), "schema", log)]
+    if kind == "fragment-spread-twice":
+        # `o` selected twice, both selections spreading the same fragment: the fragment's field node is collected once, so the one
+        # directive instance written on it wraps the one execution of `h` once
+        leaf = compose("T:w", I("SCALAR"))
+        arg = compose(leaf, I("ARGUMENT_DEFINITION"))
+        r = render(arg)
+        for i in reversed(q):
+            r = tag_value(r, "|%s>" % i)
+        out = "out:" + compose(r, I("SCALAR"))
+        log = ([("resolver", "o", "call")] + nest(I("OBJECT"), "output") + nest(I("SCALAR"), "input")
+               + nest(I("ARGUMENT_DEFINITION"), "argument") + nest(q, "field", [("resolver", "h", "call")]) + nest(I("SCALAR"), "output"))
+        return [{"o": {"h": out}}], [nest(I("SCHEMA"), "schema", log)]
     if kind in ("enum-literal", "enum-variable"):
         datas = [{"en": "ONE"}]
         logs = []
@@ -358,6 +370,10 @@ def requests():
             out.append({"kind": "y-literal", "field": "f", "text": 'query($q: String! = "%s") { f(y: "w") @t%d(id: $q) }' % (qd[0], NDIR),
                         "vars": None, "query_dirs": qd})
             out.append({"kind": "object", "text": 'query($q: String!) { o @t%d(id: $q) { s tags } }' % NDIR, "vars": {"q": qd[0]}, "query_dirs": qd})
+            out.append({"kind": "fragment-spread-twice", "text": '{ o { ...HF } o { ...HF } } fragment HF on O { h(y: "w")%s }' % qtext,
+                        "vars": None, "query_dirs": qd})
+            out.append({"kind": "fragment-spread-twice", "text": '{ ...QF o { ...HF } } fragment QF on Query { o { ... on O { ...HF } } } '
+                                                                 'fragment HF on O { h(y: "w")%s }' % qtext, "vars": None, "query_dirs": qd})
         if len(qd) == 2:
             # the same response key selected twice: the directives of the merged field nodes nest in node order
             a, b = ' @t%d(id: "%s")' % (NDIR, qd[0]), ' @t%d(id: "%s")' % (NDIR - 1, qd[1])
